@@ -125,7 +125,10 @@ func (wal *BaseWAL) OnStart() error {
 	size, err := wal.group.Head.Size()
 	if err != nil {
 		return err
-	} else if size == 0 {
+	} else if size == 0 && wal.group.ReadGroupInfo().TotalSize == 0 {
+		// The log is empty (an empty head alone does not say so: right after a
+		// rotation the head is empty while the rotated files hold the log, and a
+		// second #ENDHEIGHT 0 would hide the first height's records from replay).
 		if err := wal.WriteSync(EndHeightMessage{0}); err != nil {
 			return err
 		}
